@@ -54,6 +54,8 @@ def cases(draw):
         "pretty": draw(st.booleans()),
         "protocol": draw(st.sampled_from([2, 3, 4, 5])),
         "cfg_bounds": draw(st.sampled_from([None, None, None, (-10, 10), (-100000, 100000), (0, 50)])),
+        # numbers that reach a model from numpy/pandas (FVA frames, solution.fluxes) are numpy scalars
+        "numpy": draw(st.sampled_from([False, False, True])),
     }
 
 
@@ -145,6 +147,16 @@ def check_case(case, ctx):
     if case["cfg_bounds"] is not None:
         cobra.Configuration().bounds = case["cfg_bounds"]
     model = build.build_model(spec, case["path"])
+    if case.get("numpy"):
+        import numpy as np
+
+        classes.append("numpy-scalars")
+        for r in model.reactions:
+            r.bounds = (np.float64(r.lower_bound), np.float64(r.upper_bound))
+            r.add_metabolites({m: np.float64(c) for m, c in r.metabolites.items()}, combine=False)
+        for m in model.metabolites:
+            if m.charge is not None:
+                m.charge = np.float64(m.charge)
     sort = case["sort"] and fmt != "pickle"
     full = fmt == "pickle"
     s0 = observe.snapshot(model)
